@@ -10,6 +10,15 @@ ENGINES = [
      "kind_free_text": "program index, call binding, guards, def-use, freshness, effects"},
 ]
 CHECKS = {
+    "C01": {"engine": "G+F", "design_ref": "DESIGN.md section 3 C01",
+            "technique": "static analysis: capture-scope def/use between grammar results names and parse actions, call binding against constructor signatures/annotations, marker-to-spelling chain",
+            "text": "Decides that nothing the grammar matches is dropped, invented or routed to another field "
+                    "between the grammar and the node objects (every information point of every parse action's "
+                    "capture scope is read; every read name is defined; constructor binding by arity, keyword "
+                    "and annotated node type), that both scopes accept the same declaration kinds, that member "
+                    "kinds are routed by type, and that qualifier markers reach the right flag and C++ spelling. "
+                    "Does not decide which alternative the longest-match Or picks for ambiguous inputs.",
+            "note": TB},
     "C12": {"engine": "G", "design_ref": "DESIGN.md section 3 C12",
             "technique": "static analysis: grammar reconstruction + layout classification of terminals/combinators",
             "text": "Decides the necessary structural conditions for layout/comment independence of parsing: "
@@ -27,5 +36,5 @@ CHECKS = {
 }
 PENDING = "checker not implemented yet in this revision (see DESIGN.md section 3 for the planned static rules)"
 NOT_APPLICABLE = {p: PENDING for p in
-                  ["C01", "C02", "C03", "C04", "C05", "C06", "C07", "C08", "C09", "C10", "C11",
+                  ["C02", "C03", "C04", "C05", "C06", "C07", "C08", "C09", "C10", "C11",
                    "C13", "C14", "C15", "C16", "C17", "C18"]}
